@@ -31,7 +31,7 @@ SPEC = {
              'currency formats. Non-trivial = result with >=1 hostile string and >=2 merchants; distinct by digest of the transactions'),
     'exhaustive': {'quick': False, 'thorough': False},
     'required_counters': ['json_renderings', 'markdown_renderings', 'text_renderings', 'html_renderings', 'html_transactions_compared',
-                          'figure_comparisons', 'sections_renderings'],
+                          'figure_comparisons', 'sections_renderings', 'html_type_total_checks'],
     'assumptions': ['currency formats are valid str.format templates containing {amount}',
                     'the embedded data is decoded with html.parser followed by json.loads, as the property states'],
 }
@@ -73,11 +73,17 @@ def gen_txns(rnd):
             t['extra_fields'] = {'items': [rnd.choice(HOSTILE), 'b'], 'n': i, 'who': rnd.choice(HOSTILE)}
             hostile += 1
         if rnd.random() < .3:
-            t['match_info'] = {'pattern': rnd.choice(['contains("X")', 'regex("A|B")', 'UBER\\s(?!EATS)', rnd.choice(HOSTILE)]), 'source': 'user',
+            t['match_info'] = {'pattern': rnd.choice(PATTERNS + [rnd.choice(HOSTILE)]), 'source': 'user',
                                'tags': list(tags), 'tag_sources': {tg: {'rule': 'R', 'pattern': 'p'} for tg in tags}}
         out.append(t)
     return out, hostile
 
+
+# rule texts as they reach the report's "explain" tooltip: every documented call shape, and legacy regex patterns
+PATTERNS = ['contains("X")', 'regex("A|B")', 'UBER\\s(?!EATS)', 'contains(field.memo, "REF")', 'contains( "X" )', 'contains("MCDONALD\'S")',
+            'startswith(field.code, "AB")', 'contains(big_word) and amount > 5', 'startswith( \'x\' )', 'anyof("A", "B", "C", "D")', 'anyof()',
+            'contains("")', 'startswith("")', 'normalized("WHOLE FOODS")', 'fuzzy("STARBUCKS", 0.8)', '^(A|B', '(?i)x.*y', '[', 'A|B|C|D|E',
+            'not contains("X") and STARTSWITH("Y")', 'len([r for r in orders if contains(r.item, "X")]) > 0', 'CONTAINS(description, \'a"b\')']
 
 VIEWS = '''[All]
 description: everything </script> "quoted"
@@ -340,6 +346,17 @@ def check_html_data(rec, data, stats, txns, want, case, with_views):
     tot = sum(d['total'] for d in stats['by_merchant'].values())
     if not math.isclose(cat_sum, tot, rel_tol=1e-9, abs_tol=1e-6):
         rec.violation('html-category-sums-differ', f'sum of categoryView totals {cat_sum!r} vs analysed {tot!r}', case)
+    # per-category breakdown by kind (typeTotals) adds up to the analysed spending / income / investment / transfer totals
+    tt = Counter()
+    for cat in data['categoryView'].values():
+        for k, v in (cat.get('typeTotals') or {}).items():
+            tt[k] += v
+    rec.count('html_type_total_checks')
+    for k, wantv in (('spending', stats['spending_total']), ('income', stats['income_total']), ('investment', stats['investment_total']),
+                     ('transfer', stats['transfers_in'] + stats['transfers_out'])):
+        if not math.isclose(tt.get(k, 0.0), wantv, rel_tol=1e-9, abs_tol=1e-6):
+            rec.violation('html-category-type-sums-differ:' + k, f'per-category {k} sums add up to {tt.get(k, 0.0)!r}, analysed {wantv!r}', case)
+            break
     if with_views:
         for sid, sec in data.get('sections', {}).items():
             name = sec['title']
